@@ -553,20 +553,38 @@ theorem finiteLits_map_simplify {es : List (Exp (Ext K))} (h : ∀ e ∈ es, fin
     ∀ c ∈ es.map simplify, finiteLits c = true := by
   intro c hc; obtain ⟨e, he, rfl⟩ := List.mem_map.1 hc; exact finiteLits_simplify e (h e he)
 
-/-- Under `LogicOperands01` and finite literals, `simplify` creates no definedness. -/
-theorem Def_of_Def_simplify (ρ : String → K) (e : Exp (Ext K)) :
-    LogicOperands01 ρ e → finiteLits e = true → Def ρ (simplify e) → Def ρ e := by
+/-- immediate sub-expressions. -/
+def Exp.children {α : Type} : Exp α → List (Exp α)
+  | .num _ => []
+  | .var _ => []
+  | .abs e => [e]
+  | .not e => [e]
+  | .un _ e => [e]
+  | .min es => es
+  | .max es => es
+  | .and es => es
+  | .or es => es
+  | .xor a b => [a, b]
+  | .implies a b => [a, b]
+  | .iff a b => [a, b]
+  | .bin _ a b => [a, b]
+
+/-- `simplify` creates no definedness on any class `P` of expressions that is closed under taking
+sub-expressions and on which `simplify` is forward-sound at `ρ` (finite literals assumed). -/
+theorem Def_of_Def_simplify_gen (ρ : String → K) (P : Exp (Ext K) → Prop)
+    (hsub : ∀ e c, c ∈ Exp.children e → P e → P c)
+    (hfwd : ∀ e v, P e → eval ρ e = some v → eval ρ (simplify e) = some v) (e : Exp (Ext K)) :
+    P e → finiteLits e = true → Def ρ (simplify e) → Def ρ e := by
   induction e using Exp.ind with
   | num x => intro _ _ h; rwa [simplify_num] at h
   | var s => intro _ _ _; simp [Def, eval]
   | abs e ih =>
     intro hl hf h
-    simp only [LogicOperands01] at hl; simp only [finiteLits] at hf
+    simp only [finiteLits] at hf
     rw [simplify_abs] at h
-    exact (Def_un_iff e).1.2 (ih hl hf (Def_absCore_inv (finiteLits_simplify e hf) h))
+    exact (Def_un_iff e).1.2 (ih (hsub _ _ (by simp [Exp.children]) hl) hf (Def_absCore_inv (finiteLits_simplify e hf) h))
   | min es ih =>
     intro hl hf h
-    simp only [LogicOperands01, LogicOperands01List_iff] at hl
     simp only [finiteLits, finiteLitsL_iff] at hf
     rw [simplify_min] at h
     split at h
@@ -574,10 +592,9 @@ theorem Def_of_Def_simplify (ρ : String → K) (e : Exp (Ext K)) :
     · rename_i hne
       have := Def_minCore_inv (finiteLits_map_simplify hf) h
       exact Def_minmax_iff.1.2 ⟨hne, fun e he =>
-        ih e he (hl e he) (hf e he) (this _ (List.mem_map.2 ⟨e, he, rfl⟩))⟩
+        ih e he (hsub _ _ (by simpa [Exp.children] using he) hl) (hf e he) (this _ (List.mem_map.2 ⟨e, he, rfl⟩))⟩
   | max es ih =>
     intro hl hf h
-    simp only [LogicOperands01, LogicOperands01List_iff] at hl
     simp only [finiteLits, finiteLitsL_iff] at hf
     rw [simplify_max] at h
     split at h
@@ -585,49 +602,47 @@ theorem Def_of_Def_simplify (ρ : String → K) (e : Exp (Ext K)) :
     · rename_i hne
       have := Def_maxCore_inv (finiteLits_map_simplify hf) h
       exact Def_minmax_iff.2.2 ⟨hne, fun e he =>
-        ih e he (hl e he) (hf e he) (this _ (List.mem_map.2 ⟨e, he, rfl⟩))⟩
+        ih e he (hsub _ _ (by simpa [Exp.children] using he) hl) (hf e he) (this _ (List.mem_map.2 ⟨e, he, rfl⟩))⟩
   | and es ih =>
     intro hl hf h
-    simp only [LogicOperands01, LogicOperands01List_iff] at hl
     simp only [finiteLits, finiteLitsL_iff] at hf
     rw [simplify_and] at h
     have := Def_naryCore_inv true (finiteLits_map_simplify hf) h
     exact (Def_nary_iff true).2 (fun e he =>
-      ih e he (hl.1 e he) (hf e he) (this _ (List.mem_map.2 ⟨e, he, rfl⟩)))
+      ih e he (hsub _ _ (by simpa [Exp.children] using he) hl) (hf e he) (this _ (List.mem_map.2 ⟨e, he, rfl⟩)))
   | or es ih =>
     intro hl hf h
-    simp only [LogicOperands01, LogicOperands01List_iff] at hl
     simp only [finiteLits, finiteLitsL_iff] at hf
     rw [simplify_or] at h
     have := Def_naryCore_inv false (finiteLits_map_simplify hf) h
     exact (Def_nary_iff false).2 (fun e he =>
-      ih e he (hl.1 e he) (hf e he) (this _ (List.mem_map.2 ⟨e, he, rfl⟩)))
+      ih e he (hsub _ _ (by simpa [Exp.children] using he) hl) (hf e he) (this _ (List.mem_map.2 ⟨e, he, rfl⟩)))
   | not e ih =>
     intro hl hf h
-    simp only [LogicOperands01] at hl; simp only [finiteLits] at hf
+    simp only [finiteLits] at hf
     rw [simplify_not] at h
-    exact (Def_un_iff e).2.1.2 (ih hl hf (Def_notCore_inv (finiteLits_simplify e hf) h))
+    exact (Def_un_iff e).2.1.2 (ih (hsub _ _ (by simp [Exp.children]) hl) hf (Def_notCore_inv (finiteLits_simplify e hf) h))
   | xor a b iha ihb =>
     intro hl hf h
-    simp only [LogicOperands01] at hl; simp only [finiteLits, Bool.and_eq_true] at hf
+    simp only [finiteLits, Bool.and_eq_true] at hf
     rw [simplify_xor] at h
     have := Def_xorCore_inv (finiteLits_simplify a hf.1) (finiteLits_simplify b hf.2) h
-    exact (Def_xorlike_iff a b).1.2 ⟨iha hl.1 hf.1 this.1, ihb hl.2 hf.2 this.2⟩
+    exact (Def_xorlike_iff a b).1.2 ⟨iha (hsub _ _ (by simp [Exp.children]) hl) hf.1 this.1, ihb (hsub _ _ (by simp [Exp.children]) hl) hf.2 this.2⟩
   | implies a b iha ihb =>
     intro hl hf h
-    simp only [LogicOperands01] at hl; simp only [finiteLits, Bool.and_eq_true] at hf
+    simp only [finiteLits, Bool.and_eq_true] at hf
     rw [simplify_implies] at h
     have := Def_impliesCore_inv (finiteLits_simplify a hf.1) (finiteLits_simplify b hf.2) h
-    exact (Def_xorlike_iff a b).2.1.2 ⟨iha hl.1 hf.1 this.1, ihb hl.2 hf.2 this.2⟩
+    exact (Def_xorlike_iff a b).2.1.2 ⟨iha (hsub _ _ (by simp [Exp.children]) hl) hf.1 this.1, ihb (hsub _ _ (by simp [Exp.children]) hl) hf.2 this.2⟩
   | iff a b iha ihb =>
     intro hl hf h
-    simp only [LogicOperands01] at hl; simp only [finiteLits, Bool.and_eq_true] at hf
+    simp only [finiteLits, Bool.and_eq_true] at hf
     rw [simplify_iff] at h
     have := Def_iffCore_inv (finiteLits_simplify a hf.1) (finiteLits_simplify b hf.2) h
-    exact (Def_xorlike_iff a b).2.2.2 ⟨iha hl.1 hf.1 this.1, ihb hl.2 hf.2 this.2⟩
+    exact (Def_xorlike_iff a b).2.2.2 ⟨iha (hsub _ _ (by simp [Exp.children]) hl) hf.1 this.1, ihb (hsub _ _ (by simp [Exp.children]) hl) hf.2 this.2⟩
   | bin op a b iha ihb =>
     intro hl hf h
-    simp only [LogicOperands01] at hl; simp only [finiteLits, Bool.and_eq_true] at hf
+    simp only [finiteLits, Bool.and_eq_true] at hf
     rw [simplify_bin] at h
     have hfa := finiteLits_simplify a hf.1
     have hfb := finiteLits_simplify b hf.2
@@ -651,22 +666,54 @@ theorem Def_of_Def_simplify (ρ : String → K) (e : Exp (Ext K)) :
       | xor => exact ⟨(Def_xorCore_inv hfa hfb h).1, (Def_xorCore_inv hfa hfb h).2, by simp⟩
       | implies => exact ⟨(Def_impliesCore_inv hfa hfb h).1, (Def_impliesCore_inv hfa hfb h).2, by simp⟩
       | iff => exact ⟨(Def_iffCore_inv hfa hfb h).1, (Def_iffCore_inv hfa hfb h).2, by simp⟩
-    have hda := iha hl.1 hf.1 key.1
-    have hdb := ihb hl.2.1 hf.2 key.2.1
+    have hPb : P b := hsub _ _ (by simp [Exp.children]) hl
+    have hda := iha (hsub _ _ (by simp [Exp.children]) hl) hf.1 key.1
+    have hdb := ihb hPb hf.2 key.2.1
     refine Def_bin_of hda hdb (fun hop => ?_)
     -- the divisor keeps its value (forward soundness)
-    have := (simplify_sound_aux ρ b hl.2.1 _ (eval_of_Def hdb)).1
+    have := hfwd b _ hPb (eval_of_Def hdb)
     rw [← val_of_eval this]; exact key.2.2 hop
   | un op e ih =>
     intro hl hf h
-    simp only [LogicOperands01] at hl; simp only [finiteLits] at hf
+    simp only [finiteLits] at hf
     cases op with
     | neg =>
       rw [simplify_neg] at h
-      exact ((Def_un_iff e).2.2 _).2 (ih hl hf (Def_negCore_inv (finiteLits_simplify e hf) h))
+      exact ((Def_un_iff e).2.2 _).2 (ih (hsub _ _ (by simp [Exp.children]) hl) hf (Def_negCore_inv (finiteLits_simplify e hf) h))
     | not =>
       rw [simplify_unot] at h
-      exact ((Def_un_iff e).2.2 _).2 (ih hl hf (Def_notCore_inv (finiteLits_simplify e hf) h))
+      exact ((Def_un_iff e).2.2 _).2 (ih (hsub _ _ (by simp [Exp.children]) hl) hf (Def_notCore_inv (finiteLits_simplify e hf) h))
+
+theorem LO_children (ρ : String → K) (e c : Exp (Ext K)) (hc : c ∈ Exp.children e)
+    (h : LogicOperands01 ρ e) : LogicOperands01 ρ c := by
+  cases e with
+  | num _ => simp [Exp.children] at hc
+  | var _ => simp [Exp.children] at hc
+  | abs e => simp [Exp.children] at hc; subst hc; simpa [LogicOperands01] using h
+  | not e => simp [Exp.children] at hc; subst hc; simpa [LogicOperands01] using h
+  | un op e => simp [Exp.children] at hc; subst hc; simpa [LogicOperands01] using h
+  | min es => simp only [LogicOperands01, LogicOperands01List_iff] at h; exact h c hc
+  | max es => simp only [LogicOperands01, LogicOperands01List_iff] at h; exact h c hc
+  | and es => simp only [LogicOperands01, LogicOperands01List_iff] at h; exact h.1 c hc
+  | or es => simp only [LogicOperands01, LogicOperands01List_iff] at h; exact h.1 c hc
+  | xor a b =>
+    simp only [LogicOperands01] at h; simp [Exp.children] at hc
+    rcases hc with rfl | rfl; exact h.1; exact h.2
+  | implies a b =>
+    simp only [LogicOperands01] at h; simp [Exp.children] at hc
+    rcases hc with rfl | rfl; exact h.1; exact h.2
+  | iff a b =>
+    simp only [LogicOperands01] at h; simp [Exp.children] at hc
+    rcases hc with rfl | rfl; exact h.1; exact h.2
+  | bin op a b =>
+    simp only [LogicOperands01] at h; simp [Exp.children] at hc
+    rcases hc with rfl | rfl; exact h.1; exact h.2.1
+
+/-- Under `LogicOperands01` and finite literals, `simplify` creates no definedness. -/
+theorem Def_of_Def_simplify (ρ : String → K) (e : Exp (Ext K)) :
+    LogicOperands01 ρ e → finiteLits e = true → Def ρ (simplify e) → Def ρ e :=
+  Def_of_Def_simplify_gen ρ (LogicOperands01 ρ) (LO_children ρ)
+    (fun e v h hv => (simplify_sound_aux ρ e h v hv).1) e
 
 /-- value preservation in both directions: same definedness, same value. -/
 theorem simplify_eval_eq (ρ : String → K) (e : Exp (Ext K))
